@@ -67,13 +67,17 @@ let () =
       let cfg = { c_lim = limits_of inst (strict = "1"); c_max_content = n_of_decstr mc; c_max_chunk = n_of_decstr mk;
                   c_translate_head = (xlate = "1"); c_concat = (concat = "1") } in
       let (((v, evs), calls), oof) = feed cfg (rv_init cfg) (frags_of frags) in
+      (* what is retained after each read (C06) *)
+      let maxret = ref N0 in
+      let _ = List.fold_left (fun v f -> let (((v1, _), _), _) = read_loop cfg v f in
+                               let r = retained v1 in (if N.ltb !maxret r then maxret := r); v1) (rv_init cfg) (frags_of frags) in
       let q = v.rv_req in
       let l = q.rq_line in
       let st = String.concat "," [ni (rl_st_index l.rl_state); hex_of_str l.rl_method; hex_of_str l.rl_uri; d l.rl_major; d l.rl_minor;
                                   d l.rl_ws; bi l.rl_valid; bi l.rl_fail; bi q.rq_valid]
                ^ "#" ^ headers_digest q.rq_headers ^ "#" ^ chunk_digest v.rv_chunk ^ "#"
                ^ String.concat "," [hex_of_str v.rv_body; d v.rv_code; bi v.rv_continue_sent; bi v.rv_is_head; "x"] in
-      Printf.sprintf "calls=%s%s events=%s state=%s" (show_calls calls) (if oof then "LOOP" else "") (join_events show_event evs) st
+      Printf.sprintf "calls=%s%s events=%s state=%s maxret=%s" (show_calls calls) (if oof then "LOOP" else "") (join_events show_event evs) st (d !maxret)
     | _ -> failwith "req");
   reg "rsp" (fun a -> match a with [inst; strict; _cont; mb; mk; frags] ->
       let cfg = { cc_lim = rsp_limits_of inst (strict = "1"); cc_max_body = n_of_decstr mb; cc_max_chunk = n_of_decstr mk } in
